@@ -160,6 +160,33 @@ impl StepObs {
 #[derive(Default)]
 pub struct EventLog {
     pub events: Vec<(usize, bool, BlockHash, u32)>, // (rpc_log length at that moment, connect?, hash, height)
+    /// how many of them the listeners have completely handled
+    pub done: usize,
+    /// run on the polling thread right after the listeners have handled the event with that (1-based) number: how the
+    /// sequential references of engine S place a request between two chain events of one poll
+    pub hooks: Vec<(usize, Box<dyn FnOnce() + Send>)>,
+}
+
+impl EventLog {
+    fn completed(log: &Arc<StdMutex<EventLog>>, idx: usize) {
+        let due: Vec<Box<dyn FnOnce() + Send>> = {
+            let mut g = log.lock().unwrap();
+            g.done = idx;
+            let mut due = Vec::new();
+            let mut i = 0;
+            while i < g.hooks.len() {
+                if g.hooks[i].0 == idx {
+                    due.push(g.hooks.remove(i).1);
+                } else {
+                    i += 1;
+                }
+            }
+            due
+        };
+        for h in due {
+            h();
+        }
+    }
 }
 
 pub struct RecordingListener<L: chain::Listen> {
@@ -176,21 +203,23 @@ impl<L: chain::Listen> chain::Listen for RecordingListener<L> {
         height: u32,
     ) {
         let pos = self.env.lock().rpc_log.len();
-        self.log
-            .lock()
-            .unwrap()
-            .events
-            .push((pos, true, header.block_hash(), height));
-        self.inner.filtered_block_connected(header, txdata, height)
+        let idx = {
+            let mut g = self.log.lock().unwrap();
+            g.events.push((pos, true, header.block_hash(), height));
+            g.events.len()
+        };
+        self.inner.filtered_block_connected(header, txdata, height);
+        EventLog::completed(&self.log, idx);
     }
     fn block_disconnected(&self, header: &bitcoin::block::Header, height: u32) {
         let pos = self.env.lock().rpc_log.len();
-        self.log
-            .lock()
-            .unwrap()
-            .events
-            .push((pos, false, header.block_hash(), height));
-        self.inner.block_disconnected(header, height)
+        let idx = {
+            let mut g = self.log.lock().unwrap();
+            g.events.push((pos, false, header.block_hash(), height));
+            g.events.len()
+        };
+        self.inner.block_disconnected(header, height);
+        EventLog::completed(&self.log, idx);
     }
 }
 
